@@ -225,6 +225,12 @@ StreamTextU(a) == Join([i \in 1 .. Len(a) |-> U32Str(a[i][1])], " ")
 
 (* ------------------------ the interface catalogue ---------------------- *)
 (* One name per member / operator of VectorT that the executor evaluates.  *)
+(* eqc / nec / ltc / gtc compare two COMPUTED vectors that are equal in     *)
+(* exact arithmetic: X (a product or a negation, whose zero components are  *)
+(* negative zeros for float/double when an operand is negative) and         *)
+(* Y = X + 0 resp. 0 - a: X == Y, !(X != Y), !(X < Y), !(Y < X).            *)
+(* Groups "sweep"/"sweepmul" (kind S, types int and unsigned only) are the  *)
+(* integer scalar division / multiplication sweep over large operands.      *)
 (* A case has a kind (B: two vectors, S: vector and scalar, U: one vector,  *)
 (* I: stream input) and a list of groups that TLC found to be in contract  *)
 (* for its inputs (no division by zero, no normalisation of the zero       *)
@@ -233,18 +239,21 @@ StreamTextU(a) == Join([i \in 1 .. Len(a) |-> U32Str(a[i][1])], " ")
 Types == {"i", "u", "f", "d"}
 FloatTypes == {"f", "d"}
 Kinds == {"B", "S", "U", "I"}
-GroupsOf(k) == CASE k = "B" -> {"ring", "div"} [] k = "S" -> {"ring", "sdiv"}
+GroupsOf(k) == CASE k = "B" -> {"ring", "div"} [] k = "S" -> {"ring", "sdiv", "sweep", "sweepmul"}
                  [] k = "U" -> {"ring", "nz", "hom", "cvu"} [] k = "I" -> {"ring"}
 OpsOf(k, g, d) ==
   CASE k = "B" /\ g = "ring" -> {"add", "sub", "mul", "addeq", "subeq", "muleq", "eq", "ne", "lt", "dot", "dotm", "dotf",
-                                 "min", "max", "minimize", "maximize", "minimized", "maximized", "swap"}
+                                 "min", "max", "minimize", "maximize", "minimized", "maximized", "swap",
+                                 "eqc", "nec", "ltc", "gtc"}
                                 \cup (IF d = 3 THEN {"cross", "crossm", "crossf"} ELSE {})
     [] k = "B" /\ g = "div"  -> {"div", "diveq"}
-    [] k = "S" /\ g = "ring" -> {"smul", "smull", "smuleq", "vectorize", "vectorized", "ctor1"}
+    [] k = "S" /\ g = "ring" -> {"smul", "smull", "smuleq", "vectorize", "vectorized", "ctor1", "eqc", "nec", "ltc", "gtc"}
+    [] k = "S" /\ g = "sweep" -> {"sdiv", "sdiveq", "mean"}
+    [] k = "S" /\ g = "sweepmul" -> {"smul", "smull", "smuleq"}
     [] k = "S" /\ g = "sdiv" -> {"sdiv", "sdiveq"}
     [] k = "U" /\ g = "ring" -> {"neg", "sqrnorm", "l1", "l8", "maxc", "minc", "maxabs", "minabs", "mean", "meanabs",
                                  "get", "data", "iter", "riter", "ctoriter", "ctorn", "copy", "size", "norm", "length",
-                                 "normcond", "out", "inout", "apply", "cv_i", "cv_f", "cv_d"}
+                                 "normcond", "out", "inout", "apply", "cv_i", "cv_f", "cv_d", "eqc", "nec", "ltc", "gtc"}
     [] k = "U" /\ g = "nz"   -> {"normalize", "normalized"}
     [] k = "U" /\ g = "hom"  -> IF d = 4 THEN {"homogenized"} ELSE {}
     [] k = "U" /\ g = "cvu"  -> {"cv_u"}
@@ -261,7 +270,7 @@ Applies(op, t) == /\ (t = "u" => op \notin NotForU)
 OpsFor(k, g, t, d) == IF t = "m" THEN MixedOpsOf(k, g, d) ELSE {op \in OpsOf(k, g, d) : Applies(op, t)}
 (* operations that commute with reduction modulo 2^32 (checked on wrapped  *)
 (* negative inputs for unsigned); the others only on non-negative inputs   *)
-RingOps == {"add", "sub", "mul", "addeq", "subeq", "muleq", "eq", "ne", "dot", "dotm", "dotf", "cross", "crossm", "crossf",
+RingOps == {"eqc", "nec", "add", "sub", "mul", "addeq", "subeq", "muleq", "eq", "ne", "dot", "dotm", "dotf", "cross", "crossm", "crossf",
             "swap", "smul", "smull", "smuleq", "vectorize", "vectorized", "ctor1", "neg", "sqrnorm", "get", "data",
             "iter", "riter", "ctoriter", "ctorn", "copy", "size", "apply"}
 TypesOfDen(den) == IF den = 1 THEN Types \cup {"m"} ELSE FloatTypes
